@@ -301,18 +301,68 @@ def from_replay(a):
 
 LAST_FAILURE = {}
 
+SUN_EXPRS = ["sunrise-sunset", "dawn-dusk", "Mo-Su dawn-dusk", "(sunrise+01:00)-(sunset-00:30)", "sunset-sunrise unknown", "sunrise-12:00,14:00-sunset; PH off",
+             "10:00-sunset", "dawn-10:00 open, 18:00-dusk unknown", "Sa,Su (sunrise-02:00)-(dusk+01:00)"]
+CITIES = [(48.8535, 2.34839), (40.7128, -74.0060), (-33.8688, 151.2093), (35.6762, 139.6503), (64.1466, -21.9426), (-54.8019, -68.3030), (1.3521, 103.8198), (19.4326, -99.1332)]
+# zones with a repeated hour and the local day it happens on
+FOLDS = [("Europe/Paris", dt.datetime(2024, 10, 27)), ("Europe/London", dt.datetime(2023, 10, 29)), ("America/New_York", dt.datetime(2024, 11, 3)),
+         ("America/Sao_Paulo", dt.datetime(2018, 2, 18)), ("Australia/Sydney", dt.datetime(2024, 4, 7)), ("Atlantic/Azores", dt.datetime(2024, 10, 27)),
+         ("Australia/Lord_Howe", dt.datetime(2024, 4, 7)), ("Asia/Tehran", dt.datetime(2021, 9, 22)), ("Pacific/Chatham", dt.datetime(2024, 4, 7))]
+GAPS = [("Europe/Paris", dt.datetime(2024, 3, 31)), ("America/New_York", dt.datetime(2024, 3, 10)), ("Australia/Sydney", dt.datetime(2024, 10, 6)), ("Pacific/Apia", dt.datetime(2011, 12, 30))]
+FOLD_EXPRS = ["10:00-02:30", "Mo-Su 02:15-02:45", "00:00-01:30", "18:00-24:30", "22:00-26:15 unknown", "01:00-01:45,02:10-02:50", "Mo-Su 00:00-03:00; PH off", "23:00-03:30 \"night\""]
+
+
+@st.composite
+def general_args(draw):
+    return dict(expr=draw(exprs), timezone=draw(zones), country=draw(countries), coords=draw(coords), auto_country=draw(flags), auto_timezone=draw(flags),
+                op=draw(st.sampled_from(["state", "state", "next_change", "intervals", "intervals"])), time=draw(maybe_aware()), end=draw(st.one_of(st.none(), maybe_aware())))
+
+
+@st.composite
+def sun_args(draw):
+    """Sun-event expressions with coordinates under every combination of timezone / auto_* arguments."""
+    day = draw(st.datetimes(min_value=dt.datetime(2019, 1, 1), max_value=dt.datetime(2030, 1, 1)))
+    zone = draw(st.one_of(st.none(), st.sampled_from(["Europe/Paris", "America/New_York", "Asia/Tokyo", "UTC", "Australia/Sydney", "Africa/Abidjan"]), st.sampled_from(ZONES)))
+    t = day
+    if draw(st.booleans()):
+        t = day.replace(tzinfo=zoneinfo.ZoneInfo(draw(st.sampled_from(ZONES))))
+    return dict(expr=draw(st.sampled_from(SUN_EXPRS)), timezone=zone, country=draw(st.one_of(st.none(), st.sampled_from(COUNTRIES))), coords=draw(st.sampled_from(CITIES)),
+                auto_country=draw(flags), auto_timezone=draw(flags), op=draw(st.sampled_from(["state", "next_change", "intervals"])), time=t, end=None)
+
+
+@st.composite
+def transition_args(draw):
+    """Bounds inside the repeated / skipped hour of a DST switch; context zone, input zone or both."""
+    zone, day = draw(st.sampled_from(FOLDS + FOLDS + GAPS))
+    start = day - dt.timedelta(hours=draw(st.integers(0, 30))) + dt.timedelta(minutes=draw(st.sampled_from([0, 10, 30, 45, 59])))
+    start = start + dt.timedelta(hours=draw(st.integers(0, 8)))
+    ctx_zone = draw(st.sampled_from([None, None, zone, "UTC"]))
+    aware = draw(st.integers(0, 3))
+    t = start
+    if aware >= 1:
+        t = start.replace(tzinfo=zoneinfo.ZoneInfo(zone if aware <= 2 else draw(st.sampled_from(ZONES))), fold=draw(st.integers(0, 1)))
+    end = None
+    op = draw(st.sampled_from(["next_change", "intervals", "intervals", "state"]))
+    if op == "intervals" and draw(st.booleans()):
+        end = t + dt.timedelta(hours=draw(st.integers(1, 48)))
+    return dict(expr=draw(st.sampled_from(FOLD_EXPRS)), timezone=ctx_zone, country=None, coords=None, auto_country=draw(flags), auto_timezone=draw(flags), op=op, time=t, end=end)
+
 
 def run(tier):
-    n_examples = 1200 if tier == "quick" else 40000
+    n_examples = 1500 if tier == "quick" else 40000
 
     @seed(SEED)
     @settings(max_examples=n_examples, database=None, deadline=None, derandomize=False, suppress_health_check=list(HealthCheck), print_blob=False)
-    @given(expr=exprs, timezone=zones, country=countries, coords=coords, auto_country=flags, auto_timezone=flags,
-           op=st.sampled_from(["state", "state", "next_change", "intervals", "intervals"]), time=maybe_aware(), end=st.one_of(st.none(), maybe_aware()))
-    def prop(**args):
+    @given(args=st.one_of(general_args(), general_args(), sun_args(), transition_args()))
+    def prop(args):
+        args = dict(args)
         if args["op"] != "intervals":
             args["end"] = None
         STATS["examples"] += 1
+        if args["expr"] in SUN_EXPRS:
+            label("strategy_sun_events_with_coordinates")
+        if args["expr"] in FOLD_EXPRS:
+            label("strategy_dst_transition")
         try:
             nontrivial = check_case(args)
         except BaseException as e:  # noqa: BLE001  (PanicException derives from BaseException)
@@ -381,7 +431,7 @@ def run(tier):
             "evaluations": STATS["examples"],
             "distinct_nontrivial": len(STATS["nontrivial"]),
             "oracle_comparisons": STATS["oracle_calls"],
-            "rule": "Hypothesis examples: expression (1500 sentences from the harness generator for this seed + invalid ones) x timezone (None / any zone known to both CPython's zoneinfo and chrono-tz) x country (valid codes, near misses, None) x coords (valid incl. poles and antimeridian, invalid, None) x auto_country / auto_timezone in {None, True, False} x op (state + is_*, next_change, intervals with optional end) x datetime (naive or aware in any zone, fold 0/1; 2018-2032, 1990-2100, year 1..9999 and DST instants): exception class, validate, str, repr (literal_eval), normalize, reparse of str, and the evaluation result are compared with `ohv py-oracle` (Rust core with the documented equivalent context) on (naive local fields, zone key, fold); non-trivial = aware datetime, or a timezone / coords context",
+            "rule": "Hypothesis examples: expression (1500 sentences from the harness generator for this seed + invalid ones) x timezone (None / any zone known to both CPython's zoneinfo and chrono-tz) x country (valid codes, near misses, None) x coords (valid incl. poles and antimeridian, invalid, None) x auto_country / auto_timezone in {None, True, False} x op (state + is_*, next_change, intervals with optional end) x datetime (naive or aware in any zone, fold 0/1; 2018-2032, 1990-2100, year 1..9999 and DST instants); a quarter of the examples come from a sun-event strategy (9 sun expressions x 8 cities x timezone / auto_* combinations) and a quarter from a DST-transition strategy (expressions with bounds inside the repeated or skipped hour of 13 real transitions, zone in the context, in the input, or both): exception class, validate, str, repr (literal_eval), normalize, reparse of str, and the evaluation result are compared with `ohv py-oracle` (Rust core with the documented equivalent context) on (naive local fields, zone key, fold); non-trivial = aware datetime, or a timezone / coords context",
             "samples": STATS["samples"][:6] or ["(no non-trivial example)"],
             "labels": STATS["labels"],
             "skipped_inputs_without_core_equivalent": STATS["skipped"],
